@@ -3,6 +3,8 @@ CONSTANTS
   VsCases = {}
   SdCases = {}
   HlCases = {}
+  BtCases = {}
+  CpCases = {}
   MaxOps = 1
   KeepHist = FALSE
 INVARIANTS TrackL
